@@ -196,8 +196,32 @@ LEGS = {
     ],
 }
 
+def check_C13(K, prop, tier, seed, t0):
+    q = tier == "quick"
+    reps = [K.run_gen_leg(prop, "G-builds", dict(CFGS="U_C13", SYMS="Syms_C04", MAXLEN=3, MAXBUILDS=2 if q else 3),
+                          workers=8, threads=16, module="Gen_Cache", isolate=True)]
+    return finish(K, prop, tier, seed, t0, "model_checking", reps, None, ASSUME_COMMON,
+                  "all sequences of MaxBuilds cached builds over a base configuration, its one-field neighbours and three "
+                  "configurations that do not build; every sequence runs in a fresh process; after every build all inputs up to "
+                  "length 3 are scanned and compared with Tokenizer's stream for that configuration and with a build_uncached twin")
+
+
+def check_C15(K, prop, tier, seed, t0):
+    q = tier == "quick"
+    fns = [lambda: K.run_gen_leg(prop, "G-planted", dict(CFGS="U_C15", SYMS="Syms_C04", MAXLEN=1, MAXBUILDS=1),
+                                 workers=8, threads=8, module="Gen_Cache"),
+           lambda: K.run_trace_leg(prop, "T-c15", "c15", 3000 if q else 200000, seed, shards=8)]
+    reps = K.run_legs(fns, parallel=2)
+    return finish(K, prop, tier, seed, t0, "model_checking", reps, None, ASSUME_COMMON,
+                  "G: 12 supported host regexes with each of 22 unsupported constructs planted at every node position, as pattern or "
+                  "lookahead, in the first or second mode, plus the unplanted hosts; T: random strings over the regex meta-alphabet "
+                  "(token soup and edited well-formed patterns); build must return Err exactly when the specification says so and never panic")
+
+
 CHECKS = {
     "C01": check_C01,
+    "C15": check_C15,
+    "C13": check_C13,
     "C02": equiv_check(("mode", "la"), "compiled automaton vs position automaton of the source patterns"),
     "C03": equiv_check(("min",), "automaton before vs after Minimizer::minimize"),
     "C04": gt_check(LEGS["C04"], "c04", 300, 6000, "modes with positive/negative/no lookaheads, every start offset; random real-syntax histories with set_offset"),
